@@ -374,6 +374,8 @@ pub fn err_contexts() -> Vec<(&'static str, fn(I) -> I)> {
         ("nested-xor", |f| xor(xor(f, I::Fail(FailArg::Arg(Arg::Error(None)))), I::Fail(FailArg::Arg(Arg::Error(None))))),
         // a call that is still waiting for a value (a join) runs in a sibling par branch before / after the failure
         ("par-after-waiting-join", |f| par(par(call("B", "slow", vec![], sc("q")), par(call("A", "ga", vec![var("q")], Out::None), call("B", "gb", vec![var("q")], Out::None))), f)),
+        // the failing instruction comes after a fire-and-forget call to another peer (`co on B`)
+        ("after-fire-and-forget", |f| seq(par(call("B", "other", vec![], Out::None), I::Null), f)),
         ("par-before-waiting-join", |f| par(f, par(call("B", "slow", vec![], sc("q")), par(call("A", "ga", vec![var("q")], Out::None), call("B", "gb", vec![var("q")], Out::None))))),
     ]
 }
@@ -408,6 +410,12 @@ pub fn err_family(level: u32) -> Vec<Script> {
                         ast,
                         peers: peers.clone(),
                     });
+                    // the handler on the failing peer itself: after the catch nothing else routes the particle
+                    // to the peer the failed branch had already sent a request to
+                    if cname == "after-fire-and-forget" && catch == Catch::Outer {
+                        let f = failing_kinds(fp).into_iter().find(|(k, _)| *k == kname).unwrap().1;
+                        out.push(Script { family: "ERR".into(), name: sname(&["ERR", kname, cname, fp, "OuterSelf"]), ast: xor(cf(f), handler(fp)), peers: peers.clone() });
+                    }
                 }
             }
         }
